@@ -84,6 +84,8 @@ def run(ctx):
     adaptive_records = []
     assemble_records, assemble_errors = [], []
     span_records = []
+    best_records = []
+    import bestbasis_model
     import span_model
     import assemble_model
     entry_list = []
@@ -130,6 +132,8 @@ def run(ctx):
                 clusters = shared.get_clusters(a, seed=seed)
             if len(adaptive_records) < 500:
                 adaptive_records.extend(prec.adaptive[:30])
+            if len(best_records) < ctx.n(24, 300):
+                best_records.extend(prec.best[:3])
             if len(span_records) < ctx.n(20, 200):
                 span_records.extend(prec.span[:2])
             if len(assemble_records) < ctx.n(60, 400):
@@ -177,6 +181,7 @@ def run(ctx):
     region_model.check(ctx, broken, region_rec.records)
     assemble_model.check(ctx, broken, assemble_records, assemble_errors)
     span_model.check(ctx, broken, span_records)
+    bestbasis_model.check(ctx, broken, best_records)
     finder_helpers.pipeline_corr(ctx, broken, pipeline_items)
     if broken and not ctx.unknown_findings():
         ctx.finding("unproved", "conditional theorem no longer checks, no failing crystal found", {"kind": "broken-obligation", "broken": broken}, found_input=False)
